@@ -426,8 +426,17 @@ func (r *Runtime) regexpproto_exec(call FunctionCall) Value {
 }
 
 func (r *Runtime) regexpproto_test(call FunctionCall) Value {
-	if this, ok := r.toObject(call.This).self.(*regexpObject); ok {
-		if this.test(call.Argument(0).toString()) {
+	thisObj := r.toObject(call.This)
+	if this, ok := thisObj.self.(*regexpObject); ok {
+		s := call.Argument(0).toString()
+		if r.checkStdRegexp(thisObj) == nil {
+			// exec may have been replaced: go through RegExpExec
+			if regExpExec(thisObj, s) != _null {
+				return valueTrue
+			}
+			return valueFalse
+		}
+		if this.test(s) {
 			return valueTrue
 		} else {
 			return valueFalse
